@@ -13,6 +13,7 @@
 #include "common/ledger.h"
 #include "common/models.h"
 #include "common/leak.h"
+#include "common/faultmode.h"
 
 #include <climits>
 #include <memory>
@@ -159,6 +160,7 @@ struct Target : ITarget
 	T objs[kObjs];
 	std::unique_ptr<Remover> rm[kRemovers + 2];
 	std::vector<Handle> handles;
+	Target() { handles.reserve(4096); }
 	Handle H(int h) const { return h >= 0 && (size_t)h < handles.size() ? handles[h] : Handle(); }
 
 	~Target() override { for(auto & r : rm) r.reset(); }
@@ -207,6 +209,19 @@ ITarget * makeTarget(int kind)
 
 // ---------------------------------------------------------------- model
 
+struct LibProxy
+{
+	ITarget * p = nullptr;
+	struct Scope
+	{
+		ITarget * p;
+		explicit Scope(ITarget * p_) : p(p_) { --faults().paused; }
+		~Scope() { ++faults().paused; }
+		ITarget * operator -> () const { return p; }
+	};
+	Scope operator -> () const { return Scope(p); }
+};
+
 enum NodeKind { N_PLAIN, N_COUNTER, N_COND };
 struct Node
 {
@@ -236,6 +251,8 @@ struct Interp
 	std::string prop;
 	Verdict & v;
 	std::unique_ptr<ITarget> impl;
+	LibProxy lib;
+	FaultPlan * plan = nullptr;
 	ListModel lists[kObjs][kKeys];
 	std::vector<Node> nodes;
 	std::vector<const std::vector<Op> *> bodies;
@@ -292,10 +309,50 @@ struct Interp
 	void detach(int node) { int o, k; if(where(node, o, k)) lists[o][k].remove(node); }
 
 	void exec(const std::vector<Op> & ops, int depth, int self) {
+		int index = 0;
 		for(const Op & op : ops) {
 			if(failed) return;
-			execOp(op, depth, self);
+			if(depth == 0 && plan) execWithFaults(op, index);
+			else execOp(op, depth, self);
 			if(depth == 0 && ! failed) observe();
+			++index;
+		}
+	}
+
+	// C09: listener management, directly or through the remover utilities, leaves everything as it was when it throws;
+	// a trigger that throws leaves what the callbacks (and the remover wrappers) did
+	void execWithFaults(const Op & op, int index) {
+		struct Snap { ListModel lists[kObjs][kKeys]; std::vector<Node> nodes; size_t bodies; MRemover rm[kRemovers + 2]; } snap;
+		for(int o = 0; o < kObjs; ++o) for(int k = 0; k < kKeys; ++k) snap.lists[o][k] = lists[o][k];
+		snap.nodes = nodes; snap.bodies = bodies.size();
+		for(int i = 0; i < kRemovers + 2; ++i) snap.rm[i] = rm[i];
+		const size_t depth0 = frames.size();
+		bool nonEmpty = false;
+		for(int o = 0; o < kObjs; ++o) for(int k = 0; k < kKeys; ++k) if(! lists[o][k].empty()) nonEmpty = true;
+		int caught = 0;
+		{
+			FaultArm arm(plan, index);
+			try { execOp(op, 0, -1); }
+			catch(const Injected &) { caught = 1; }
+			catch(const std::bad_alloc &) { caught = 2; }
+			catch(...) { fail("fault.foreign", "C09", "an exception of a different type than the injected one reached the caller"); }
+		}
+		if(! caught) return;
+		if(faults().fired == 0) { fail("fault.spurious", "C09", "an exception reached the caller although no fault was injected"); return; }
+		++plan->fired;
+		plan->firedKind = faults().lastKind;
+		auto it = plan->at.find(index);
+		if(it != plan->at.end() && it->second > 1 && nonEmpty) plan->firedAtKGreater1OnNonEmpty = true;
+		log << "[fault " << (caught == 1 ? "Injected" : "bad_alloc") << "]";
+		frames.resize(depth0);
+		if(op.kind != R_TRIGGER) {
+			for(int o = 0; o < kObjs; ++o) for(int k = 0; k < kKeys; ++k) lists[o][k] = snap.lists[o][k];
+			nodes = snap.nodes; bodies.resize(snap.bodies);
+			for(int i = 0; i < kRemovers + 2; ++i) rm[i] = snap.rm[i];
+			if(impl->handleCount() != nodes.size()) {
+				// the add reached the target (a handle exists) although the call failed: the observation below shows the orphan
+				log << "[handle produced by a failed add]";
+			}
 		}
 	}
 
@@ -327,7 +384,7 @@ struct Interp
 			if(! impl->hasScoped() || rm[s].alive) break;
 			int mode = ((op.b % 3) + 3) % 3;
 			rm[s] = MRemover(); rm[s].alive = true; rm[s].target = mode == 0 ? -1 : mode - 1;
-			impl->rmNew(s, mode);
+			lib->rmNew(s, mode);
 			break;
 		}
 		case R_ADD: {
@@ -338,7 +395,7 @@ struct Interp
 			place(node, obj, key, how, before);
 			nodes[node].owner = s;
 			rm[s].owned.push_back(node);
-			impl->rmAdd(s, key, how, before, nodes[node].cb);
+			lib->rmAdd(s, key, how, before, nodes[node].cb);
 			log << "(r" << s << ":n" << node << ")";
 			break;
 		}
@@ -348,18 +405,18 @@ struct Interp
 			if((op.kind != R_ADD_DIRECT) && ! c16) break;
 			int node = newNode(op, obj, key);
 			place(node, obj, key, how, before);
-			if(op.kind == R_ADD_DIRECT) impl->add(obj, key, how, before, nodes[node].cb);
+			if(op.kind == R_ADD_DIRECT) lib->add(obj, key, how, before, nodes[node].cb);
 			else if(op.kind == R_ADD_COUNTER) {
 				static const int special[] = { INT_MIN, -5, -1, 0, 1, 2, 3, 7, INT_MAX };
 				int n = (op.a >> 1) % 12 < 9 ? special[(op.a >> 1) % 12 < 0 ? 0 : (op.a >> 1) % 12] : ((op.a >> 5) % 9);
 				nodes[node].kind = N_COUNTER; nodes[node].n = n;
 				if(n <= 0 || n >= 2) nontrivCounter = true;
-				impl->addCounter(obj, key, how, before, nodes[node].cb, n);
+				lib->addCounter(obj, key, how, before, nodes[node].cb, n);
 				log << "(n" << node << " count " << n << ")";
 			}
 			else {
 				nodes[node].kind = N_COND; nodes[node].condBits = op.a >> 2; nodes[node].condWithArg = (op.a & 2) != 0;
-				impl->addCond(obj, key, how, before, nodes[node].cb, nodes[node].condWithArg);
+				lib->addCond(obj, key, how, before, nodes[node].cb, nodes[node].condWithArg);
 				log << "(n" << node << " cond " << nodes[node].condBits << ")";
 			}
 			break;
@@ -380,7 +437,7 @@ struct Interp
 				nodes[h].owner = -1;
 				rm[s].owned.erase(std::find(rm[s].owned.begin(), rm[s].owned.end(), h));
 			}
-			bool r = impl->rmRemove(s, key, h);
+			bool r = lib->rmRemove(s, key, h);
 			log << "(r" << s << ",h" << h << ")=" << r;
 			if(r != expect) fail("remover.remove.result", "C15", "remove through the remover returned " + std::to_string(r) + ", model says " + std::to_string(expect));
 			break;
@@ -392,7 +449,7 @@ struct Interp
 			if(! where(h, o, k)) { o = nodes[h].obj; k = nodes[h].key; }
 			if(nodes[h].inLimbo) break;
 			bool expect = lists[o][k].remove(h);
-			bool r = impl->remove(o, k, h);
+			bool r = lib->remove(o, k, h);
 			log << "(h" << h << ")=" << r;
 			if(r != expect) fail("remover.removeDirect.result", prop, "direct remove returned " + std::to_string(r) + ", model says " + std::to_string(expect));
 			break;
@@ -400,7 +457,7 @@ struct Interp
 		case R_RESET: {
 			if(! impl->hasScoped() || ! rm[s].alive) break;
 			resetModel(s);
-			impl->rmReset(s);
+			lib->rmReset(s);
 			removerGone(s);
 			break;
 		}
@@ -408,14 +465,14 @@ struct Interp
 			if(! impl->hasScoped() || ! rm[s].alive) break;
 			int obj = op.b & 1;
 			if(rm[s].target != obj) { resetModel(s); removerGone(s); rm[s].target = obj; }
-			impl->rmSetTarget(s, obj);
+			lib->rmSetTarget(s, obj);
 			break;
 		}
 		case R_DESTROY: {
 			if(! impl->hasScoped() || ! rm[s].alive) break;
 			resetModel(s);
 			rm[s].alive = false;
-			impl->rmDestroy(s);
+			lib->rmDestroy(s);
 			removerGone(s);
 			break;
 		}
@@ -427,7 +484,7 @@ struct Interp
 			rm[d] = MRemover(); rm[d].alive = true; rm[d].target = rm[s].target; rm[d].owned = rm[s].owned;
 			for(int n : rm[d].owned) nodes[n].owner = d;
 			rm[s].owned.clear();
-			impl->rmMoveCtor(s, d);
+			lib->rmMoveCtor(s, d);
 			break;
 		}
 		case R_MOVEASSIGN: {
@@ -445,7 +502,7 @@ struct Interp
 			rm[s].target = rm[src].target;
 			for(int n : rm[s].owned) nodes[n].owner = s;
 			rm[src].owned.clear();
-			impl->rmMoveAssign(s, src);
+			lib->rmMoveAssign(s, src);
 			log << "(r" << s << "<-r" << src << ")";
 			break;
 		}
@@ -457,7 +514,7 @@ struct Interp
 			for(int n : rm[s].owned) nodes[n].owner = s;
 			for(int n : rm[o2].owned) nodes[n].owner = o2;
 			// limbo bookkeeping follows the objects, which is what the statement names ("all removers involved")
-			impl->rmSwap(s, o2);
+			lib->rmSwap(s, o2);
 			break;
 		}
 		case R_TRIGGER: {
@@ -470,7 +527,7 @@ struct Interp
 			if(lists[obj][key].nodes.size() >= 2) otherPresent = true;
 			frames.push_back(f);
 			log << "(o" << obj << "k" << key << "){";
-			impl->trigger(obj, key, op.b, queued);
+			lib->trigger(obj, key, op.b, queued);
 			log << "}";
 			if(! failed) {
 				TFrame & fr = frames.back();
@@ -551,6 +608,9 @@ struct Interp
 			if(nd.triggers >= limit) detach(cb);
 		}
 		log << " >n" << cb;
+	}
+	void onListenerBody(int cb) {
+		if(failed) return;
 		if(--fuel > 0) {
 			const std::vector<Op> * body = bodies[cb];
 			if(body && ! body->empty()) exec(*body, (int)frames.size(), cb);
@@ -596,6 +656,8 @@ struct Interp
 		kind = ((kind % 5) + 5) % 5;
 		if(! c16 && kind > 2) kind = kind - 3;
 		impl.reset(makeTarget(kind));
+		lib.p = impl.get();
+		FaultPause harnessCode;
 		if(! c16 && impl->hasScoped()) {
 			// three removers to begin with: two on object 0, one on object 1
 			for(int s0 = 0; s0 < kRemovers; ++s0) {
@@ -625,14 +687,27 @@ struct Interp
 	}
 };
 
-void deliverListener(int cb, int arg) { if(g_r) g_r->onListener(cb, arg); }
-bool deliverCondition(int cb, int arg, bool hasArg) { return g_r ? g_r->onCondition(cb, arg, hasArg) : false; }
+void deliverListener(int cb, int arg)
+{
+	// the wrapper (counter / conditional remover) has already done its accounting when the user listener is entered:
+	// the model does the same before the listener may throw (C09)
+	{ FaultPause fp, fp2; if(g_r) g_r->onListener(cb, arg); }
+	faults().point(1);
+	FaultPause fp, fp2;
+	if(g_r) g_r->onListenerBody(cb);
+}
+bool deliverCondition(int cb, int arg, bool hasArg)
+{
+	faults().point(5);
+	FaultPause fp, fp2;
+	return g_r ? g_r->onCondition(cb, arg, hasArg) : false;
+}
 
 Grammar makeGrammar(const std::string & prop)
 {
 	Grammar g;
 	const bool c16 = prop == "C16";
-	g.params = { c16 ? ArgSpec(0, 4) : ArgSpec(0, 2) };
+	g.params = { c16 ? ArgSpec(0, 4) : ArgSpec(0, 2), ArgSpec(0, 0) };
 	g.maxDepth = 3;
 	g.maxTotalOps = 120;
 	Level top;
@@ -688,7 +763,7 @@ const Grammar & grammar(const std::string & prop)
 
 long g_caseCounter = 0;
 
-Verdict run(const Program & p, const std::string & prop)
+Verdict runOnce(const Program & p, const std::string & prop, FaultPlan * plan)
 {
 	Verdict v;
 	v.trace.reserve(4096);
@@ -698,6 +773,7 @@ Verdict run(const Program & p, const std::string & prop)
 	LeakScope scope;
 	{
 		Interp in(p, prop, v);
+		in.plan = plan;
 		g_r = &in;
 		in.run();
 		g_r = nullptr;
@@ -718,7 +794,16 @@ Verdict run(const Program & p, const std::string & prop)
 		v.classes.push_back("lsan_confirmation_run");
 		if(confirmLeak()) v.fail("lsan.leak", "C08", "LeakSanitizer: memory allocated during the case is unreachable afterwards", "lsan.leak");
 	}
+	if(! v.ok && plan && ! plan->counting && (v.prop == "C08" || v.prop == "C15" || v.prop == "C16")) v.prop += ",C09";
 	return v;
+}
+
+Verdict run(const Program & p, const std::string & prop)
+{
+	// C09 uses both program classes: ownership histories (even seeds of params[1]) and trigger histories
+	if(prop != "C09") return runOnce(p, prop, nullptr);
+	const std::string inner = (p.params.size() > 1 && (p.params[1] & 1)) ? "C16" : "C15";
+	return faultOrchestrate(p, [&](const Program & q2, FaultPlan & plan, Verdict & out) { out = runOnce(q2, inner, &plan); });
 }
 
 } // namespace
